@@ -147,5 +147,4 @@ contract_nodes_pair = Contract(
     ],
     **common,
 )
-contract_nodes_pair.shards = 12
 CONTRACTS.append(contract_nodes_pair)
